@@ -58,6 +58,7 @@ type BitcoinNode struct {
 	blockRequest       *bitcoin.Hash32
 	blockHandler       HandleBlock
 	blockReader        io.ReadCloser
+	blockStarted       bool // the block handler has been started for the current block request
 	blockOnStop        OnStop
 	lastRequestedBlock *bitcoin.Hash32
 
@@ -226,6 +227,7 @@ func (n *BitcoinNode) RequestBlock(ctx context.Context, hash bitcoin.Hash32, han
 	n.handlers[wire.CmdBlock] = n.handleBlock
 	n.blockHandler = handler
 	n.blockReader = nil
+	n.blockStarted = false
 	n.lastRequestedBlock = &hash
 	n.Unlock()
 
@@ -270,6 +272,11 @@ func (n *BitcoinNode) CancelBlockRequest(ctx context.Context, hash bitcoin.Hash3
 		n.blockReader = nil
 		n.blockOnStop = nil
 		n.blockHandler = nil
+		if !n.blockStarted {
+			// The block message has begun but the handler was not started yet and now never will be.
+			logger.Info(ctx, "Cancelled block before handler started")
+			return false
+		}
 		logger.Info(ctx, "Cancelled in progress block")
 		return true
 	}
